@@ -1,5 +1,6 @@
 """C10 fit() writes one faithful record per eligible source and reads back unchanged."""
 import ast
+import re
 
 from ..astutil import up, chain, calls, is_call_to, walk_local, paths, root_name, stores, const
 from ..rules import where, path_actions, pickle_state_agreement
@@ -202,14 +203,18 @@ def check_write_meta(ctx):
         acts = path_actions(p)
         first = None
         for a in acts:
-            if a[0] == 'test' and up(a[1]).replace(' ', '') in ('self._first_metaisNone', 'self._first_metaisnotNone'):
-                first = a[2] if 'isnot' not in up(a[1]).replace(' ', '') else not a[2]
+            t = up(a[1]).replace(' ', '') if a[0] == 'test' else ''
+            m = re.match(r'^self\.(_\w*meta\w*)is(not)?None$', t)
+            if m:
+                first = a[2] if not m.group(2) else not a[2]
         metas = [up(a[1].args[0]) for a in acts if a[0] == 'call' and (chain(a[1].func) or '').endswith('.dump') and a[1].args
                  and '.meta.' in up(a[1].args[0])]
-        sets = [a for a in acts if a[0] == 'store' and up(a[1]) == 'self._first_meta']
+        sets = [a for a in acts if a[0] == 'store' and re.match(r'^self\._\w*meta\w*$', up(a[1]))]
         inst = 'write path #%d' % n
-        if first is None:
-            ctx.violation('CFG-2', inst, where(write), 'path does not test whether metadata was already written', 'no-first-test')
+        if first is None and not metas:
+            ctx.undecided('CFG-2', inst, where(write), 'the test that tells the first record from later ones was not recognised')
+        elif first is None:
+            ctx.violation('CFG-2', inst, where(write), 'metadata is dumped on a path that does not test whether it was already written', 'no-first-test')
         elif first:
             fields = [m.split('.meta.')[-1] for m in metas]
             good = len(metas) == 3 and bool(sets) and up(sets[-1][2]) == rec + '.meta'
@@ -222,20 +227,30 @@ def check_write_meta(ctx):
     # reader
     order_r = []
     for t, v, st in stores(init.node):
-        if isinstance(v, ast.Call) and (chain(v.func) or '').endswith('.load') and isinstance(t, ast.Attribute) and up(t.value) == 'self._first_meta':
+        if isinstance(v, ast.Call) and (chain(v.func) or '').endswith('.load') and isinstance(t, ast.Attribute) and re.match(r'^self\._\w*meta\w*$', up(t.value)):
             order_r.append((st.lineno, t.attr))
     order_r = [a for _, a in sorted(order_r)]
     ctx.expect(order_w is not None and order_w == order_r, 'AGREE-2', 'metadata sequence', where(init),
                'writer dumps %s, reader loads %s' % (order_w, order_r), 'writer dumps %s but reader loads %s' % (order_w, order_r), 'meta-sequence')
-    reattach = [st for t, v, st in stores(it.node) if isinstance(t, ast.Attribute) and t.attr == 'meta' and up(v) == 'self._first_meta']
+    reattach = [st for t, v, st in stores(it.node) if isinstance(t, ast.Attribute) and t.attr == 'meta' and re.match(r'^self\._\w*meta\w*$', up(v))]
     ctx.expect(bool(reattach), 'AGREE-2', 'metadata re-attached', where(it, reattach[0] if reattach else None),
                'every record read gets .meta = self._first_meta', 'records read from a file do not get the stored metadata', 'no-reattach')
+
+
+def memory_attr(repo):
+    """the attribute of FitInfoFile that holds in-memory results: what __iter__ loops over"""
+    it = repo.func('fit_info', 'FitInfoFile.__iter__')
+    for n in walk_local(it.node):
+        if isinstance(n, ast.For) and isinstance(n.iter, ast.Attribute) and isinstance(n.iter.value, ast.Name) and n.iter.value.id == it.params[0]:
+            return n.iter.attr
+    raise AnalysisError('FitInfoFile.__iter__: loop over the in-memory results not found')
 
 
 def check_ctor(ctx):
     repo = ctx.repo
     init = ctx.fn(repo.func('fit_info', 'FitInfoFile.__init__'))
     me = init.params[0]
+    mem = memory_attr(repo)
     n = 0
     for p in paths(init.node.body):
         if p.exit == 'raise':
@@ -260,8 +275,8 @@ def check_ctor(ctx):
             assigned |= tgt
         kind = [up(a[1])[:60] for a in acts if a[0] == 'test' and a[2] and 'isinstance' in up(a[1])]
         inst = 'constructor path #%d %s' % (n, kind[0] if kind else '')
-        if '_fits' not in assigned:
-            problems.append('self._fits is not assigned')
+        if mem not in assigned:
+            problems.append('self.%s is not assigned' % mem)
         if problems:
             ctx.violation('CFG-10', inst, where(init), '; '.join(sorted(set(problems))), 'definite-assignment')
         else:
